@@ -27,6 +27,7 @@ EXPLANATION = (
     "notifications (association thread vs provider thread)."
     " Third session: (provider-survives) borrowed from C05 (abort-once, abort-not-after-release, release-only-established) and C04 (artim-run-state): an undefined (event, state) pair kills the provider thread and with it the connection-close notification; wire-match accepts a memoryview / slice of the stream as 'the bytes written'."
     " Fifth round: (provider-survives) also borrows C03's tls-portable and short-is-closed and C01's evaluated decoders; the wire-match rule is structural over what is written from the stream."
+    " Sixth round: (provider-survives) every exit of the association reactor passes kill(); borrows C24's reader-woken."
 )
 
 
